@@ -28,6 +28,8 @@ def norm_key(key, callee=None):
     if kind == "assert" and detail.startswith("Overflow:"):
         parts = detail.split(":")
         kind, detail, ty = "arith", parts[1], (parts[2] if len(parts) > 2 and parts[2] else None)
+    elif kind == "capacity":
+        detail = "ArrayVec"      # collect::<ArrayVec<_, N>>() and an explicit push loop are the same capacity obligation
     elif kind == "overflow-call":
         m = re.search(r"::(add|sub|mul|div|rem|shl|shr|neg)(_assign)?$", detail)
         if m:
@@ -36,6 +38,11 @@ def norm_key(key, callee=None):
                 mt = re.match(r"^<&?([iu](?:8|16|32|64|size)) as ", callee)
                 ty = mt.group(1) if mt else None
     return (fn, kind, detail, ty)
+
+
+def norm_fn(body):
+    fn = strip_generics(body.path) if not body.path.startswith("<") else body.path
+    return re.sub(r"::\{closure#\d+\}", "", fn)
 
 
 def panic_audit(ctx, rep, P, groups, extra_roots=None, floor_sites=0):
@@ -75,6 +82,10 @@ def panic_audit(ctx, rep, P, groups, extra_roots=None, floor_sites=0):
                 rep.ok(P + ".panic", "discharged:%s" % s.key(), s.loc(), s.why)
             else:
                 und_all.setdefault(s.key(), []).append((s, k))
+    fn_bodies = {}
+    for x, bb in F.by_key.items():
+        if bb.promoted is None:
+            fn_bodies.setdefault(norm_fn(bb), set()).add(x)
     # 1. exact keys with their multiplicity
     left_sites = []
     capacity = {k_: a_["n"] for k_, a_ in audit.items()}
@@ -104,6 +115,20 @@ def panic_audit(ctx, rep, P, groups, extra_roots=None, floor_sites=0):
             if (fn, kind, detail) == (fn2, kind2, detail2) and (ty is None or ty2 is None or ty == ty2):
                 hit = key
                 break
+        if hit is None:
+            # 3. the site moved into a helper that the audited function calls (or out of one into its caller): same
+            #    obligation, same neighbourhood in the call graph
+            me = {k} | {x for x in F.by_key if norm_fn(F.by_key[x]) == fn}
+            for key, cap in capacity.items():
+                if cap <= 0:
+                    continue
+                fn2, kind2, detail2, ty2 = norm_key(key)
+                if (kind, detail) != (kind2, detail2) or not (ty is None or ty2 is None or ty == ty2):
+                    continue
+                theirs = fn_bodies.get(fn2, set())
+                if any(b_ in cg.edges.get(a_, ()) for a_ in theirs for b_ in me) or any(b_ in cg.edges.get(a_, ()) for a_ in me for b_ in theirs):
+                    hit = key
+                    break
         if hit is not None:
             capacity[hit] -= 1
             aud += 1
